@@ -359,6 +359,7 @@ Definition expect_varint (w : wval) : pres N := match w with WVarint n => POk n 
 Definition expect_f32 (w : wval) : pres N := match w with WF32 b => POk (le_val b) | _ => PErr end.
 Definition expect_f64 (w : wval) : pres N := match w with WF64 b => POk (le_val b) | _ => PErr end.
 Definition expect_len (w : wval) : pres bytes := match w with WLen b => POk b | _ => PErr end.
+Definition expect_len_map (w : wval) : pres bytes := match w with WLen b => POk b | _ => PUnmodelled end.
 
 (* prost::encoding::<kind>::merge for the scalar kinds (the wire type must match; the value is overwritten) *)
 Definition dec_plain (k : skind) (w : wval) : pres pval :=
@@ -453,8 +454,10 @@ Section Dec.
         | _ => pbind (dec_value merge_msg (f_kind f) None w) (fun v => POk (PList (old ++ [v])))
         end
     | CMap kk _ _ =>
+        (* prost-reflect does NOT check the wire type of a map field: merge_loop reads a length varint from whatever
+           follows the key.  Only the length-delimited case is modelled (record boundaries would differ otherwise). *)
         let old := match cur with Some (PMap l) => l | _ => [] end in
-        pbind (expect_len w) (fun b =>
+        pbind (expect_len_map w) (fun b =>
         pbind (parse_records b) (fun rs =>
         pbind (fold_left (entry_step merge_msg kk (f_kind f)) rs (POk (default_of kk, default_of (f_kind f))))
           (fun '(k, v) => POk (PMap (map_insert old k v)))))
